@@ -349,6 +349,7 @@ func Build(g *Grammar, o BuildOpts) *Built {
 		}
 		return p
 	}
+	nullable := nullableRules(g)
 	for i, r := range g.Rules {
 		body := build(r)
 		if o.MemoRules == nil || o.MemoRules[i] {
@@ -397,6 +398,21 @@ func Build(g *Grammar, o BuildOpts) *Built {
 						}
 						return n, cp, err
 					}
+				}
+			}
+			if probe != nil && probe.Bound && !nullable[i] {
+				// a rule that cannot derive the empty string never answers with a zero-width result -
+				// also not from the cache (a result whose end was moved back to its start makes every
+				// repetition over it spin for ever, and the call budget would then discard the case)
+				inner2, nt := pf, i
+				pf = func(ctx *parsley.Context, l data.IntMap, pos parsley.Pos) (parsley.Node, data.IntSet, parsley.Error) {
+					n, cp, err := inner2.Parse(ctx, l, pos)
+					for _, alt := range alternatives(n) {
+						if alt.ReaderPos() <= pos {
+							panic(boundExceeded{fmt.Sprintf("rule N%d cannot match the empty string but answered at position %d with a result that ends at %d: a repetition over it never advances", nt, int(pos), int(alt.ReaderPos()))})
+						}
+					}
+					return n, cp, err
 				}
 			}
 			*b.NT[i] = pf
